@@ -2014,13 +2014,12 @@ class AndNegMacro(Macro):
     def eval(self, args, prevs=None):
         conj = args[0]
         neg_disjs = args[1:]
-        expected_conj = []
-        while conj.is_conj():
-            expected_conj.append(Not(conj.arg1))
-            if Not(conj.arg) == args[-1]:
-                expected_conj.append(Not(conj.arg))
-                break
-            conj = conj.arg
+        if len(neg_disjs) == 0:
+            raise VeriTException("and_neg", "Unexpected goal")
+        try:
+            expected_conj = [Not(c) for c in strip_conj_n(conj, len(neg_disjs))]
+        except AssertionError:
+            raise VeriTException("and_neg", "Unexpected goal")
         if neg_disjs != tuple(expected_conj):
             raise VeriTException("and_neg", "Unexpected goal")
         return Thm(Or(*args))
